@@ -51,4 +51,4 @@ def default_models(Base, opts):
     return dict(Article=Article, Tag=Tag)
 
 def dump(ns, table):
-    return [tuple(r) for r in ns['s'].execute(sa.text('select * from %s order by 1,2,3' % table))]
+    return [tuple(r) for r in ns['s'].execute(sa.text('select * from %s order by 1' % table))]
